@@ -391,6 +391,16 @@ class Run:
                     rec.violate("C15/stdout-not-restored", "stdout", "recovery")
                 self.check_scheme(scheme, snap, "recovery")
 
+            # -------- out-of-scope probe (recorded, never judged): a fault in create_result's own re-evaluation,
+            # i.e. after the optimiser has returned (DESIGN 4.15 scope decision)
+            if not rec.violations:
+                self.seams.driver = driver() if driver else None
+                res, exc, ok, _, _ = self.call_optimize(scheme, False, False, {"kind": "post_ls", "exc": "InjectedFault"})
+                if self.seams.fired:
+                    rec.stat("out_of_scope_create_result_fault_" + ("escapes" if exc is not None else "contained"))
+                    if not ok:
+                        rec.violate("C15/stdout-not-restored", "stdout", "fault inside create_result (after the optimiser returned)")
+
         rec.logical["ops"] = len(rec.events)
         rec.stats["distinct_fault_cells"] = len(dkeys)
         rec.cells = sorted(dkeys)
@@ -597,11 +607,12 @@ class Run:
         opts = dict(spec["scheme"])
         groups = list(model.dataset_groups)
         applied = []
+        drop_parameters = False
         for d in defects:
             if d == "missing_dataset":
                 data.pop(sorted(data)[-1])
             elif d == "no_parameters":
-                params = None
+                drop_parameters = True
             elif d == "bad_method":
                 opts["optimization_method"] = "SteepestDescent"
             elif d == "bad_residual":
@@ -615,6 +626,8 @@ class Run:
             return
         try:
             scheme = Scheme(model=model, parameters=params, data=data, **opts)
+            if drop_parameters:
+                scheme.parameters = None  # a Scheme cannot be constructed without parameters, but the attribute can be unset
         except Exception as e:  # noqa: BLE001
             rec.stat("invalid_scheme_unbuildable")
             return
